@@ -22,6 +22,39 @@ CHECKS = {
              "supply for running totals (need-units). Known findings G1 (meat) and G3 (first-year-only stock) are keyed by "
              "clause, round kind and stock regime.",
     ),
+    "C03": dict(
+        technique="TLA+ spec Rounds.tla: TLC exhaustive protocol model with liveness (MC_Rounds) + one Trace_Rounds trace per "
+                  "recorded three-round run",
+        text="Rounds.tla is the three-round protocol as a state machine (Start, Round 1/2/3, Skip, Validator, Done/Failed). "
+             "Its Done action carries the three policy implications of C03 (starving => essentially no feed and not below "
+             "round 1; round 1 reaches T => final >= T - 0.1) and every Round action the per-month demand and shut-off "
+             "bounds on the feed and biofuel actually drawn by the LP. Every corpus run is one trace (quick ~100 runs incl. "
+             "T = 10, T = 50 and T = 100 presets; thorough ~2600).",
+        design_ref="5 (C03), Rounds.tla",
+        note="'Essentially none' is 0.1 % of need per month and the grace 0.1 point, as in validate_results.py. Known finding "
+             "G2 is keyed by clause and stock regime.",
+    ),
+    "C04": dict(
+        technique="TLA+ spec Report.tla: TLC exhaustive design check (MC_Report) + one Trace_Report trace per interpreted round "
+                  "(LP allocation vs reported series vs kcals-equivalent vs CSV read back)",
+        text="Report.tla states, month by month, that every reported contribution is the LP allocation of that food in percent "
+             "(documented 3-decimal rounding for stored food and crops), that the monthly total is their sum, that "
+             "kcals-equivalent = percent x KD / 100, that the CSV equals the returned series, that the crop split adds up, and "
+             "at End that the headline is the minimum monthly total and within 0.01 % of the first-solve optimum.",
+        design_ref="5 (C04), Report.tla",
+        note="The allocation is normalised by the requirement by the recorder (one constant per trace); every other relation is "
+             "evaluated by TLC. Tolerance 1e-7 absolute + 1e-9 relative on percent-sized quantities.",
+    ),
+    "C05": dict(
+        technique="TLA+ spec HerdSupply.tla: TLC exhaustive design check (MC_HerdSupply) + one Trace_HerdSupply trace per "
+                  "optimisation round (herd species tables vs time_consts meat / milk / feed)",
+        text="For every round of every corpus run the monthly slaughter of every species and the milking herds of the herd "
+             "simulation that feeds the round are multiplied out in TLC (per-head yields by class, distribution and retail "
+             "waste) and compared with the meat and milk series in the round's time_consts - monthly in the human rounds, in "
+             "total in the feed round; plus feed charged >= feed eaten (round 3), grass eaten <= grass, no charge => no feed.",
+        design_ref="5 (C05), HerdSupply.tla",
+        note="Herds are attributed to rounds by the compute_parameters call that built them. Class map restated in the harness.",
+    ),
     "C06": dict(
         technique="TLA+ spec Herd.tla: TLC exhaustive (MC_Herd, exact rationals) + trace validation of "
                   "animal_populations.main() runs (Trace_Herd, limb fixed point)",
@@ -76,6 +109,18 @@ CHECKS = {
         note="Universe: 3 unit triples (default, ratio, percent) x total/per-month/each-month x 2-3 number patterns, series "
              "of 2 months. Outside the domain (named in the spec): non-ratio scalar x ratio series (the code refuses with "
              "'consider implementing this feature'), two ratios with different suffixes. in_units is covered by C10.",
+    ),
+    "C16": dict(
+        technique="TLA+ spec Rounds.tla: trace acceptance (LegalOrder, SolverOptimal, ValidatorsPass, Completed, "
+                  "PercentFedFiniteNonNeg) of every run of the preset grid",
+        text="Every (country, preset) of the grid is run for real; the run's event trace must be a complete behaviour of "
+             "Rounds.tla: legal order of rounds and skips, solver status 1 at each of the up to nine solves, every built-in "
+             "validator call returning normally, Done reached with a finite non-negative percent fed. An exception anywhere is "
+             "the event Failed and names the (country, preset). Quick: 13 country codes x 7 presets + 12 variations; thorough: "
+             "all 164 countries + world x 12 presets + 4 variations each (2640 runs).",
+        design_ref="5 (C16), Rounds.tla",
+        note="Presets: the six shipped YAML simulations, six manuscript simulations expressed with the dispatcher's option names, "
+             "19 single-option variations (harness/presets.py).",
     ),
     "C18": dict(
         technique="TLA+ spec Handoff.tla: relations FillMin / Retime / Bump; MC_Handoff enumerates small inputs that are run "
